@@ -20,9 +20,16 @@ if [ "$repo" != "/repo" ]; then
   modflag="-modfile=bin/alt-$tag.mod"
   out="bin/$lc-$tag"
 fi
+# third-party start-up check that panics under this toolchain (see overlay/): replaced at build time only
+quic="$(go list $modflag -m -f '{{.Dir}}' github.com/lucas-clemente/quic-go 2>/dev/null)"
+ovl=""
+if [ -n "$quic" ] && [ -f "$quic/internal/handshake/unsafe.go" ]; then
+  printf '{"Replace":{"%s":"%s"}}\n' "$quic/internal/handshake/unsafe.go" "$(pwd)/overlay/quic_handshake_unsafe_stub.go" > bin/overlay.json
+  ovl="-overlay=bin/overlay.json"
+fi
 (
   flock 9
-  if ! go build $modflag -tags verif -o "$out" "./cmd/$lc" 2> "$out.build.err"; then
+  if ! go build $modflag $ovl -tags verif -o "$out" "./cmd/$lc" 2> "$out.build.err"; then
     cat "$out.build.err" >&2
     echo "BUILD-FAILED property=$id (the tree does not compile with hooks on)" >&2
     exit 3
